@@ -17,6 +17,7 @@ import (
 type expected struct {
 	c      chan *Conn
 	cancel context.CancelFunc
+	done   <-chan struct{}
 }
 
 // Listener is an implementation of net.Listener that is used to accept
@@ -59,11 +60,19 @@ func (l *Listener) Expect(ctx context.Context, from jid.JID, sid string) (net.Co
 	e.c = make(chan *Conn)
 	ctx, cancel := context.WithCancel(ctx)
 	e.cancel = cancel
+	e.done = ctx.Done()
 	l.expected[key] = e
 	l.eLock.Unlock()
 
 	select {
 	case <-ctx.Done():
+		// Nobody is waiting for this stream anymore: forget about it, or a later
+		// open request for it would be handed to nobody and block the session.
+		l.eLock.Lock()
+		if cur, ok := l.expected[key]; ok && cur.c == e.c {
+			delete(l.expected, key)
+		}
+		l.eLock.Unlock()
 		return nil, ctx.Err()
 	case conn, ok := <-e.c:
 		if !ok {
